@@ -8,7 +8,10 @@ from __future__ import annotations
 
 from .. import dump as D
 from ..machine import Machine, cache_op, plain_op, viol
+from ..netgen import DEFAULT_CONFIG
 from ..ops import World
+
+MOTIF_DEFAULT = DEFAULT_CONFIG["max_motifs_per_node"]
 
 
 class C04(Machine):
@@ -19,6 +22,10 @@ class C04(Machine):
         sc["params"] = {"len": rng.randint(1, 9), "p_cache": rng.choice([0.0, 0.15, 0.3]), "final": rng.choice(["bfs", "dfs"])}
         if rng.random() < 0.3:
             sc["reorder_seed"] = rng.randrange(1 << 30)
+        # motif-limit mode (round 9): `max_motifs_per_node` is one of the "any limits" of a
+        # plain expansion call; while it is tight an expansion may legitimately raise the
+        # limit error, but whatever *is* marked expanded must still have its full successors
+        sc["params"]["p_motif_limit"] = rng.choice([0.0, 0.0, 0.2, 0.35])
 
     def setup(self, world, sc):
         twin = World(sc["net"], None, None, None, budget=self.USE_BUDGET)
@@ -37,10 +44,15 @@ class C04(Machine):
         if step >= p["len"]:
             if st["final_done"]:
                 return None
+            if world.sd.config["max_motifs_per_node"] != MOTIF_DEFAULT:
+                return {"op": "set_knob", "name": "max_motifs_per_node", "value": MOTIF_DEFAULT}
             st["final_done"] = True
             if p["final"] == "bfs":
                 return {"op": "bfs", "node": None, "level": None, "size": None, "final": True}
             return {"op": "dfs", "node": None, "stack": None, "size": None, "final": True}
+        if rng.random() < p.get("p_motif_limit", 0.0):
+            val = rng.choice([1, 2, 2, 3, 4, 5, MOTIF_DEFAULT])
+            return {"op": "set_knob", "name": "max_motifs_per_node", "value": val}
         if rng.random() < p["p_cache"]:
             return cache_op(world, rng)
         return plain_op(world, rng)
@@ -51,9 +63,12 @@ class C04(Machine):
         v = []
         if out["cls"] not in ("ok",):
             # plain expansion with default config must not raise (no faults are injected here)
-            if out["cls"] in ("crash", "limit_error", "key_error"):
+            if out["cls"] == "limit_error" and world.sd.config["max_motifs_per_node"] != MOTIF_DEFAULT:
+                pass  # legitimate: the configured motif limit is tight; fall through to the structure check
+            elif out["cls"] in ("crash", "limit_error", "key_error"):
                 return [viol(self.ID, "op_raised", step, {"op": op, "cls": out["cls"], "msg": out.get("msg")}, site=op["op"])]
-            return []
+            else:
+                return []
         F = st["F"]
         cur = D.structure(world)
         for sp, recs in cur.items():
